@@ -221,7 +221,10 @@ def check_heap(rep, repo: Repo, pre: str = "") -> None:
     for name, want in (("dad", None), ("left_son", {("param", "_"): 2, 1: 1}), ("right_son", {("param", "_"): 2, 1: 2})):
         w = W[name]
         rets = [e for e in w.events if e.kind == "return" and e.fn is w.entry]
-        prm = ("param", w.entry.params[1])
+        own_params = [x for x in w.entry.params if x != "self"]
+        if len(own_params) != 1:
+            raise AnalysisError(f"Heap.{name}: expected one position parameter, found {own_params}")
+        prm = ("param", own_params[0])  # (a static method has no self)
         if len(rets) == 2 and name == "dad":
             # `if i > 0: return <parent>` / `return <something for i <= 0>`: positions are >= 0 and the root has no parent
             # (the sifts never ask for it), so the branch for positive positions is the function
@@ -834,6 +837,10 @@ def check_heap(rep, repo: Repo, pre: str = "") -> None:
     emp = ret_cond(W["is_empty"])
     oke = emp in (("cmp", "==", *sorted([LAST, ("const", -1)], key=repr)), ("cmp", "<", LAST, ("const", 0)),
                   ("cmp", "<=", LAST, ("const", -1)))
+    if not oke and emp is not None and emp[0] == "cmp" and emp[1] == "==":
+        # last + 1 == 0 (the number of queued elements is 0)
+        d = _sub(lin(emp[2]), lin(emp[3]))
+        oke = lin_eq(d, {LAST: 1, 1: 1}) or lin_eq(d, {LAST: -1, 1: -1})
     rep.fn(pre + "H6-empty", W["is_empty"].entry, "is_empty() <=> last == -1", oke,
            f"emptiness predicate is '{show(emp) if emp else '?'}'")
 
